@@ -675,6 +675,16 @@ def reenc_verdict(img, ans, m, pads):
     return 'ok'
 
 
+def variant_values(osz):
+    """byte values at which a selector, offset or length byte of an object of declared size osz changes the variant"""
+    vs = set([0, 1, 2, 3, 4, 7, 8, 9, 12, 15, 16, 17, 24, 31, 32, 33, 48, 63, 64, 65, 72, 80, 96, 127, 128, 129, 254, 255])
+    for base in (osz, osz - 8, osz - 16, osz - 32):
+        for dlt in (-2, -1, 0, 1, 2):
+            if 0 <= base + dlt <= 255:
+                vs.add(base + dlt)
+    return sorted(vs)
+
+
 def filler_only(img, out, base_out, m, mut):
     """the re-encoding differs from the overwritten image only at overwritten offsets whose bytes the decoder ignored
     (they come out exactly as in the re-encoding of the unmodified image)"""
@@ -738,6 +748,13 @@ def check_C02(res):
     except Exception:
         gold = {}
     gold_reqs = {}      # class -> (image name, {position: index into reqs})
+    WRITE_GOLD = os.environ.get('VERIF_WRITE_GOLDEN') == 'C02'
+    try:
+        vgold = json.load(open(os.path.join(VERIF, 'spec', 'reenc_variants_golden.json')))
+    except Exception:
+        vgold = {}
+    var_seen = set()
+    var_now = {}
     for name, typ, img in images:
         cn = fac.get(str(typ))
         if cn is None or cn not in cls:
@@ -756,6 +773,20 @@ def check_C02(res):
                     meta.append((name, cn, bytes(d), ('golden', ppos)))
             gold_reqs[cn] = (name, gp, len(reqs) - len(gp) - 1)
         osz = int.from_bytes(img[8:12], 'little')
+        if cn not in var_seen and (WRITE_GOLD or (cn in vgold and vgold[cn]['image'] == name)):
+            # consistent variant images (spec/reenc_variants_golden.json): single-byte overwrites of selector / offset / length bytes
+            # with values at the class's own boundaries that the recorded tree decodes completely and re-encodes to the very same
+            # bytes although the shape changed - images the library itself writes (encode(decode(I')) = I'), so they stay reproducible
+            var_seen.add(cn)
+            if WRITE_GOLD:
+                cand = [(pp, vv) for pp in range(16, min(osz, len(img), 128)) for vv in variant_values(osz) if vv != img[pp]]
+            else:
+                cand = [tuple(x) for x in vgold[cn]['exact']]
+            for pp, vv in cand:
+                if pp < len(img):
+                    d = bytearray(img); d[pp] = vv
+                    reqs.append('reenc %s %s' % (cn, bytes(d).hex()))
+                    meta.append((name, cn, bytes(d), ('variant', pp, vv)))
         positions = list(range(16, min(osz, len(img))))
         if len(positions) > npos:
             positions = sorted(rng.sample(positions, npos))
@@ -827,6 +858,25 @@ def check_C02(res):
         m = mask_offsets(cls[cn])
         pads = any(fac.get(k) == cn for k in fac) and cls[cn].get('layout') and any(it[0] == 'pad' for it in cls[cn]['layout']['items'])
         v = reenc_verdict(img, b, m, pads)
+        if mut is not None and mut[0] == 'variant':
+            d = parse_kv(b)
+            ba = base_ans.get(name, {})
+            osz_ = int.from_bytes(img[8:12], 'little')
+            exact_ = v == 'ok' and 'out' in d and int.from_bytes(bytes.fromhex(d['out'])[8:12], 'little') == osz_ and int(d.get('pos', 0)) >= osz_ \
+                and len(bytes.fromhex(d['out'])) >= osz_
+            if WRITE_GOLD:
+                sf = set(str(x) for x in cls[cn].get('shapeFields', []))
+                oa = dict(x.split('=') for x in (ba.get('dec') or ba.get('obj', [])))
+                ob = dict(x.split('=') for x in (d.get('dec') or d.get('obj', [])))
+                if exact_ and 'out' in ba and (d.get('pos') != ba.get('pos') or any(oa.get(k) != ob.get(k) for k in sf)):
+                    var_now.setdefault(cn, {'image': name, 'exact': []})['exact'].append([mut[1], mut[2]])
+            else:
+                stats.setdefault('consistent_variants_checked', 0)
+                stats['consistent_variants_checked'] += 1
+                if not exact_:
+                    fails.setdefault((cn, 'consistent-variant-not-reproduced'), (name, 'the image with the byte at offset %d set to %d (a variant that the recorded tree decodes completely and writes back byte for byte) is now %s' % (
+                        mut[1], mut[2], v if v not in (None, 'ok') else ('not decoded completely (pos=%s, declared %d)' % (d.get('pos'), osz_))), r))
+            continue
         if mut is None:
             stats['base_images'] += 1
             base_ans[name] = parse_kv(b)
@@ -897,6 +947,8 @@ def check_C02(res):
                 fails.setdefault((cn, 'represented-byte-now-ignored'), (name, 'the decoder no longer represents the byte at offset %d of the image (it did on the recorded tree; %d such bytes: %s): an image with another value there is not reproduced' % (ppos, len(new_ign), new_ign[:8]), reqs[gp[ppos]]))
     if os.environ.get('VERIF_WRITE_GOLDEN') == 'C02':
         json.dump(ignored_now, open(os.path.join(VERIF, 'spec', 'reenc_ignored_golden.json'), 'w'), indent=0, sort_keys=True)
+        json.dump(var_now, open(os.path.join(VERIF, 'spec', 'reenc_variants_golden.json'), 'w'), sort_keys=True)
+    res.oblige('S:variant-golden-present', bool(vgold) or WRITE_GOLD, 'spec/reenc_variants_golden.json missing')
     res.corr['ignored_byte_classes_checked'] = len([c for c in ignored_now if c in gold])
     res.oblige('S:ignored-byte-golden-present', bool(gold), 'spec/reenc_ignored_golden.json missing')
     res.corr['disagreements'] = dis
@@ -1358,11 +1410,17 @@ def monitor_corr(pipe, res, kind, nseq, maxlen):
         executed.append(ops2)
     imp, rc, err = lib.psession(exe, sent, timeout=1800)
     if len(imp) != len(sent):
-        res.oblige('D:harness-session', False, '%d answers for %d sequences; %s' % (len(imp), len(sent), err[-800:]))
-        return []
+        # the harness died on some sequence (sanitizer abort, signal): find it, answer the rest
+        first_err = err
+        imp, rc, err = lib.psession_resilient(exe, sent, timeout=1800)
+        if len(imp) != len(sent):
+            res.oblige('D:harness-session', False, '%d answers for %d sequences; %s' % (len(imp), len(sent), (first_err or err)[-800:]))
+            return []
+        res.corr['harness_crashes'] = sum(1 for a in imp if a.startswith('crash'))
+        res.corr['harness_crash_report'] = (first_err or '')[-600:]
     # blocking probes are timing based: an operation that returns may, under load, need longer than the probe waits.
     # Every disagreement is therefore repeated alone with a long probe time before it counts.
-    redo = [i for i, (e, b) in enumerate(zip(expect, imp)) if e != b]
+    redo = [i for i, (e, b) in enumerate(zip(expect, imp)) if e != b and not b.startswith('crash')]
     if redo and len(redo) <= 400:
         env2 = dict(os.environ); env2['VERIF_PROBE_MS'] = '1500'
         again, rc2, err2 = lib.session(exe, [sent[i] for i in redo], env=env2, timeout=1800)
@@ -1377,6 +1435,10 @@ def monitor_corr(pipe, res, kind, nseq, maxlen):
             dis += 1
             if dis <= 10:
                 # first differing step
+                if b.startswith('crash'):
+                    res.violation('implementation-aborts', '%s monitor: the implementation is stopped by the sanitizer or a signal on this operation sequence (%s); the model answers %s' % (cmd, b, e[:200]),
+                                  {'request': r, 'impl': b, 'model': e, 'sanitizer_report': res.corr.get('harness_crash_report', '')})
+                    continue
                 pe, pb = e.split(' | '), b.split(' | ')
                 k = next((i for i in range(min(len(pe), len(pb))) if pe[i] != pb[i]), min(len(pe), len(pb)))
                 res.violation('model-vs-implementation', '%s monitor: model and implementation differ at step %d' % (cmd, k),
@@ -2025,17 +2087,18 @@ def codecgen_mod():
     return codecgen
 
 
-def wrap_stream(stream, cs):
-    """level-0 file around a hand-assembled uncompressed stream (independent of the library)"""
-    import struct
+def wrap_stream(stream, cs, level=0):
+    """file around a hand-assembled uncompressed stream (independent of the library); level 0: stored containers"""
+    import struct, zlib
     body = b''
     chunks = []
     while len(stream) >= cs:
         chunks.append(stream[:cs]); stream = stream[cs:]
     chunks.append(stream)
     for ch in chunks:
-        osz = 32 + len(ch)
-        body += struct.pack('<IHHIIHHIII', 0x4A424F4C, 16, 1, osz, 10, 0, 0, 0, len(ch), 0) + ch + bytes(osz % 4)
+        st = zlib.compress(ch, level) if level else ch
+        osz = 32 + len(st)
+        body += struct.pack('<IHHIIHHIII', 0x4A424F4C, 16, 1, osz, 10, 2 if level else 0, 0, 0, len(ch), 0) + st + bytes(osz % 4)
     hdr = struct.pack('<IIIBBBBQQII', 0x47474F4C, 144, 4080200, 0, 0, 0, 0, 144 + len(body), 0, 0, 0) + bytes(16) + bytes(16) + struct.pack('<Q', 0) + bytes(64)
     return hdr + body
 
@@ -2210,6 +2273,43 @@ def check_C10(res):
             for code in (0, 1, 65, 200):
                 stream = tail_obj + struct.pack('<IHHII', 0x4A424F4C, hs, 1, osz, code) + bytes(rng.choice([0, 16, 40])) + (tail_obj if rng.random() < 0.7 else b'')
                 files.append(wrap_stream(stream, rng.choice([64, 131072]))); kinds.append('header-fields:%d:%d:%d' % (hs, osz, code))
+    # the parser stops early in a file far larger than the read-ahead (stream buffer = one default container, object queue = 10 objects):
+    # the inflating thread sleeps on the full buffer when the parser gives up; the session must still end and close() return
+    ti = next(i for i, f in enumerate(next(c for c in summary['classes'] if c['name'] == 'AppText')['fields']) if f['name'] == 'text')
+    tcode = next((int(k) for k, v in summary.get('factory', {}).items() if v == 'AppText' and k.isdigit()), 65)
+    nbig = 0
+    for lvl, cs, n, ln in ((0, 131072, 40, 12000), (6, 131072, 60, 9000), (0, 65536, 30, 16000)):
+        rq = 'writefile level=%d cs=%d rp=1 ' % (lvl, cs) + ' '.join(';; AppText %d=%s' % (ti, '%02x' % (0x61 + j % 20) * ln) for j in range(n))
+        w, rc, err = lib.session(fexe, [rq], env=fc.fenv(), timeout=300)
+        if not (w and w[0].startswith('writefile out=')):
+            res.notes.append('large file for the early-stop cases not written: %s' % ((w[0] if w else err)[-200:]))
+            continue
+        big = bytes.fromhex(w[0].split('out=')[1].split()[0])
+        if lvl != 0:
+            # compressed: the object stream is not visible in the file; corrupt it through the independent decoder
+            import blfparse
+            try:
+                hdr, conts = blfparse.parse_file(big)
+            except blfparse.FormatError:
+                conts = None
+            if not conts:
+                continue
+            stream = b''.join(c['payload'] for c in conts)
+            k = stream.find(b'LOBJ', 1)
+            if k < 0:
+                continue
+            bad = stream[:k + 8] + (rng.choice([0, 8, 15])).to_bytes(4, 'little') + stream[k + 12:]
+            files.append(wrap_stream(bad, cs, level=lvl)); kinds.append('early-stop-large:object-1-size-below-16:compressed:%d' % cs); nbig += 1
+            continue
+        import re
+        pos = [m.start() for m in re.finditer(b'LOBJ', big)]
+        objs_at = [q for q in pos if big[q + 12:q + 16] == tcode.to_bytes(4, 'little')]
+        for idx in (0, 1, 2):
+            if idx < len(objs_at):
+                q = objs_at[idx]
+                b2 = bytearray(big); b2[q + 8:q + 12] = (rng.choice([0, 8, 15])).to_bytes(4, 'little')
+                files.append(bytes(b2)); kinds.append('early-stop-large:object-%d-size-below-16:%d' % (idx, cs)); nbig += 1
+    res.corr['early_stop_large_files'] = [k for k in kinds if k.startswith('early-stop-large')]
     decoder_safety(res, pipe, summary, rng)
     os.environ['VERIF_CAP'] = str(256 * 1024 * 1024)
     r, mr = fc.read_files(res, files, fexe)
